@@ -954,3 +954,99 @@ func isNamedPtr(t types.Type, name string) bool {
 	n, ok := p.Elem().(*types.Named)
 	return ok && n.Obj().Name() == name
 }
+
+func init() {
+	register(&core.Rule{ID: "C03.13", Prop: "C03", MinSites: 4,
+		Desc: "an accepted request is a queued task: the concurrency-safe entry points that promise a task (conn.Wake, Close, CloseWithCallback, AsyncWritev, and AsyncWrite for stream connections) report success only as the result of poller.Trigger – every return hands back the Trigger call itself, a variable assigned from a call on that path, or a named error value; a literal `return nil` (a request swallowed, coalesced with a pending one or dropped) is not reachable",
+		Run:  runC03_13})
+}
+
+func runC03_13(c *core.Ctx) {
+	a := pollerOf(c)
+	if a == nil {
+		return
+	}
+	for _, name := range []string{"conn.Wake", "conn.Close", "conn.CloseWithCallback", "conn.AsyncWritev", "conn.AsyncWrite"} {
+		f := getFn(c, "", name)
+		if f == nil {
+			continue
+		}
+		k := 0
+		const fTrig = 1
+		mp := &flow.Problem{Must: true}
+		mp.Node = func(b *flow.Block, i int, n ast.Node, in uint64) uint64 {
+			for _, call := range flow.Calls(n) {
+				if flow.IsCall(f.Info, call, a.trigger.Obj) {
+					in |= fTrig
+				}
+			}
+			return in
+		}
+		msol := f.Graph().Solve(mp)
+		for _, b := range f.Graph().Exits() {
+			r := b.Return
+			if r == nil {
+				continue
+			}
+			var res ast.Expr
+			switch {
+			case len(r.Results) == 1:
+				res = r.Results[0]
+			case len(r.Results) == 0 && f.Decl.Type.Results != nil && len(f.Decl.Type.Results.List) == 1 && len(f.Decl.Type.Results.List[0].Names) == 1:
+				res = f.Decl.Type.Results.List[0].Names[0]
+			default:
+				continue
+			}
+			k++
+			good, why := false, ""
+			e := ast.Unparen(res)
+			if call, ok := e.(*ast.CallExpr); ok {
+				if flow.IsCall(f.Info, call, a.trigger.Obj) {
+					good, why = true, "the result of Trigger"
+				} else {
+					good, why = true, "the result of a call"
+				}
+			} else if flow.IsNil(f.Info, e) {
+				// `if err := Trigger(…); err != nil { return err }; return nil`
+				if msol.Out(b)&fTrig != 0 {
+					good, why = true, "nil after Trigger was called on every path"
+				}
+			} else if o := flow.ObjOf(f.Info, e); o != nil {
+				if o.Pkg() != nil && o.Parent() == o.Pkg().Scope() {
+					good, why = true, "a named error value"
+				} else if v, ok := o.(*types.Var); ok && !v.IsField() {
+					// a local: every assignment to it is from a call (Trigger, sendTo)
+					fromCalls, n := true, 0
+					ast.Inspect(f.Decl.Body, func(x ast.Node) bool {
+						if _, isLit := x.(*ast.FuncLit); isLit {
+							return false
+						}
+						if as, ok := x.(*ast.AssignStmt); ok {
+							for i, l := range as.Lhs {
+								if flow.ObjOf(f.Info, l) != types.Object(v) {
+									continue
+								}
+								n++
+								var rhs ast.Expr
+								if len(as.Rhs) == len(as.Lhs) {
+									rhs = as.Rhs[i]
+								} else if len(as.Rhs) == 1 {
+									rhs = as.Rhs[0]
+								}
+								if _, isCall := ast.Unparen(rhs).(*ast.CallExpr); !isCall {
+									fromCalls = false
+								}
+							}
+						}
+						return true
+					})
+					if fromCalls && n > 0 {
+						good, why = true, "a variable assigned from calls only"
+					}
+				}
+			}
+			c.Check(good, f.Name, "return #"+itoa(k)+" reports what Trigger reported", r.Pos(), why,
+				nameOf(f.Obj)+" can return nil without having handed a task to the poller on this path: the caller is told the request was accepted, but nothing was queued – the wake-up, write or close it asked for never runs (or is silently merged with another one)")
+		}
+	}
+}
